@@ -302,8 +302,15 @@ func (server *SugarDB) setExpiry(ctx context.Context, key string, expireAt time.
 
 	database := ctx.Value("Database").(int)
 
+	// The key may have been removed since the caller stored or looked it up (the asynchronous max-memory
+	// eviction and the expiry sampler take this lock only): a key that is gone gets no expiry time, and in
+	// particular no entry is created for it.
+	entry, ok := server.store[database][key]
+	if !ok {
+		return
+	}
 	server.store[database][key] = internal.KeyData{
-		Value:    server.store[database][key].Value,
+		Value:    entry.Value,
 		ExpireAt: expireAt,
 	}
 
